@@ -47,7 +47,8 @@ type faultyClient struct {
 	rfaults []readFault
 	calls   int
 	trace   []string
-	fired   map[string]int // stream faults that actually fired, per file (each ResumableReader has its own retry budget)
+	fired   map[string]int // retries actually spent per file: stream faults that fired AND failed reopen attempts (each ResumableReader has its own budget)
+	inWrite int            // >0 while a WriteLTXFile call is running: OpenLTXFile calls are then a resumable reader's reopen attempts
 }
 
 func (c *faultyClient) arm(f string, partial int, rf []readFault) {
@@ -87,6 +88,10 @@ func (c *faultyClient) LTXFiles(ctx context.Context, level int, seek ltx.TXID, u
 
 func (c *faultyClient) WriteLTXFile(ctx context.Context, level int, minTXID, maxTXID ltx.TXID, rd io.Reader) (*ltx.FileInfo, error) {
 	f := c.next(fmt.Sprintf("write L%d %d-%d", level, minTXID, maxTXID))
+	c.mu.Lock()
+	c.inWrite++
+	c.mu.Unlock()
+	defer func() { c.mu.Lock(); c.inWrite--; c.mu.Unlock() }()
 	switch f {
 	case 'b':
 		n, _ := io.CopyN(io.Discard, rd, int64(c.partial)) // partially consumed upload
@@ -112,6 +117,7 @@ type faultyStream struct {
 	rc   io.ReadCloser
 	pos  int
 	name string
+	size int // length of the stored file: an injected EOF at or beyond it is the real end, not a retry
 }
 
 func (s *faultyStream) Read(p []byte) (int, error) {
@@ -127,7 +133,9 @@ func (s *faultyStream) Read(p []byte) (int, error) {
 		if room <= 0 {
 			c.mu.Lock()
 			c.rfaults = c.rfaults[1:]
-			c.fired[s.name]++
+			if !(rf.Kind == "eof" && s.size > 0 && s.pos >= s.size) {
+				c.fired[s.name]++
+			}
 			c.trace = append(c.trace, fmt.Sprintf("  stream fault %s at %d", rf.Kind, s.pos))
 			c.mu.Unlock()
 			if rf.Kind == "eof" {
@@ -148,6 +156,11 @@ func (s *faultyStream) Close() error { return s.rc.Close() }
 func (c *faultyClient) OpenLTXFile(ctx context.Context, level int, minTXID, maxTXID ltx.TXID, offset, size int64) (io.ReadCloser, error) {
 	if f := c.next(fmt.Sprintf("open L%d %d-%d @%d", level, minTXID, maxTXID, offset)); f != 'o' {
 		c.outcome("error")
+		c.mu.Lock()
+		if c.inWrite > 0 { // a failed reopen costs the reader one retry, exactly like a broken stream
+			c.fired[fmt.Sprintf("%d/%d-%d", level, minTXID, maxTXID)]++
+		}
+		c.mu.Unlock()
 		return nil, errInjected
 	}
 	rc, err := c.ReplicaClient.OpenLTXFile(ctx, level, minTXID, maxTXID, offset, size)
@@ -155,7 +168,11 @@ func (c *faultyClient) OpenLTXFile(ctx context.Context, level int, minTXID, maxT
 	if err != nil {
 		return nil, err
 	}
-	return &faultyStream{c: c, rc: rc, pos: int(offset), name: fmt.Sprintf("%d/%d-%d", level, minTXID, maxTXID)}, nil
+	fsize := 0
+	if fi, err := os.Stat(c.ReplicaClient.LTXFilePath(level, minTXID, maxTXID)); err == nil {
+		fsize = int(fi.Size())
+	}
+	return &faultyStream{c: c, rc: rc, pos: int(offset), name: fmt.Sprintf("%d/%d-%d", level, minTXID, maxTXID), size: fsize}, nil
 }
 
 // ---- case ----
@@ -704,7 +721,9 @@ func runCase(drv *hx.Driver, c Case, scratch string, res *counter) (viol string,
 			comp := litestream.NewCompactor(e.fc, quiet)
 			_, cerr := comp.Compact(ctx, 1)
 			// whether every source stream was delivered is decided by the environment: a reader gives up
-			// after more than 3 faults that really fired on its file (faults beyond the file's end never fire)
+			// after more than 3 retries really spent on its file — stream faults that fired (faults beyond
+			// the file's end never fire) plus reopen attempts that failed (an armed call fault landing on a
+			// reopen, i.e. on an OpenLTXFile issued while the write is running)
 			reads := 1
 			e.fc.mu.Lock()
 			for _, n := range e.fc.fired {
